@@ -1,6 +1,7 @@
 package main
 
 import (
+	"time"
 	"fmt"
 	"io"
 	"reflect"
@@ -19,6 +20,20 @@ import (
 )
 
 // C02 — BED and GFF features survive write-then-read with coordinate conventions.
+
+// c02Plain is a feature that is neither a *gff.Feature nor a region nor a sequence: the writer renders it as a
+// ##sequence-region line.
+type c02Plain struct {
+	name string
+	s, e int
+}
+
+func (p c02Plain) Start() int             { return p.s }
+func (p c02Plain) End() int               { return p.e }
+func (p c02Plain) Len() int               { return p.e - p.s }
+func (p c02Plain) Name() string           { return p.name }
+func (p c02Plain) Description() string    { return "" }
+func (p c02Plain) Location() feat.Feature { return nil }
 
 func init() {
 	register(&obs.Monitor{
@@ -192,6 +207,9 @@ func c02Case(r *obs.Run, i int) {
 	// ---- GFF ----
 	header := rng.Intn(2) == 0
 	width := 1 + rng.Intn(80)
+	if rng.Intn(15) == 0 { // inline sequence lines longer than a 4096-byte read buffer
+		width = 4000 + rng.Intn(5000)
+	}
 	nitems := 1 + rng.Intn(6)
 	cw := &countingWriter{}
 	gw := gff.NewWriter(cw, width, header)
@@ -222,6 +240,8 @@ func c02Case(r *obs.Run, i int) {
 		return true
 	}
 	nontrivial := false
+	wantSourceVersion := ""
+	var wantDate *time.Time
 	for k := 0; k < nitems; k++ {
 		switch c := rng.Intn(10); {
 		case c < 5:
@@ -261,13 +281,29 @@ func c02Case(r *obs.Run, i int) {
 			reg := &gff.Region{Sequence: gff.Sequence{SeqName: genNoSpace(rng), Type: curType}, RegionStart: s, RegionEnd: s + 1 + rng.Intn(100000)}
 			items = append(items, item{kind: "region", reg: reg})
 			desc = append(desc, fmt.Sprintf("region %q type %v [%d,%d)", reg.SeqName, reg.Type, reg.RegionStart, reg.RegionEnd))
-			if !write("Write(region)", func(gw *gff.Writer) (int, error) { return gw.Write(reg) }) {
+			// the same ##sequence-region line can be asked for in four ways
+			how := rng.Intn(4)
+			if !write([]string{"Write(region)", "WriteMetaData(region)", "WriteMetaData(feature)", "Write(some other feature)"}[how], func(gw *gff.Writer) (int, error) {
+				switch how {
+				case 1:
+					return gw.WriteMetaData(reg)
+				case 2:
+					return gw.WriteMetaData(&gff.Feature{SeqName: reg.SeqName, Source: "s", Feature: "f", FeatStart: reg.RegionStart, FeatEnd: reg.RegionEnd})
+				case 3:
+					return gw.Write(c02Plain{reg.SeqName, reg.RegionStart, reg.RegionEnd})
+				}
+				return gw.Write(reg)
+			}) {
 				return
 			}
 			nontrivial = true
 		case c < 9:
 			al := []alphabet.Alphabet{alphabet.DNA, alphabet.RNA, alphabet.Protein, alphabet.DNAgapped, alphabet.DNAredundant}[rng.Intn(5)]
-			sq := linear.NewSeq(genNoSpace(rng), alphabet.BytesToLetters([]byte(genLetters(rng, al, 1+rng.Intn(300)))), al)
+			sl := 1 + rng.Intn(300)
+			if width > 1000 || rng.Intn(20) == 0 {
+				sl = 3000 + rng.Intn(17000)
+			}
+			sq := linear.NewSeq(genNoSpace(rng), alphabet.BytesToLetters([]byte(genLetters(rng, al, sl))), al)
 			if rng.Intn(3) == 0 {
 				sq.Desc = genDesc(rng)
 			}
@@ -282,6 +318,23 @@ func c02Case(r *obs.Run, i int) {
 			desc = append(desc, "comment "+c)
 			if !write("WriteComment", func(gw *gff.Writer) (int, error) { return gw.WriteComment(c) }) {
 				return
+			}
+			// metadata lines that only update the reader's state: the reader goes on to the next item
+			if rng.Intn(2) == 0 {
+				sv := genNoSpace(rng) + " " + genNoSpace(rng)
+				if !write("WriteMetaData(source-version)", func(gw *gff.Writer) (int, error) { return gw.WriteMetaData("source-version " + sv) }) {
+					return
+				}
+				wantSourceVersion = sv
+				desc = append(desc, "##source-version "+sv)
+			}
+			if rng.Intn(2) == 0 {
+				d := time.Date(1+rng.Intn(9998), time.Month(1+rng.Intn(12)), 1+rng.Intn(28), 0, 0, 0, 0, time.UTC)
+				if !write("WriteMetaData(date)", func(gw *gff.Writer) (int, error) { return gw.WriteMetaData(d) }) {
+					return
+				}
+				wantDate = &d
+				desc = append(desc, "##date "+d.Format("2006-1-02"))
 			}
 		}
 	}
@@ -440,6 +493,14 @@ func c02Case(r *obs.Run, i int) {
 			return
 		}
 		r.Count("scanner_passes", 1)
+	}
+	if wantSourceVersion != "" && gr.SourceVersion != wantSourceVersion {
+		fail("record-differs", fmt.Sprintf("reader's SourceVersion is %q after the file was read, the last ##source-version line says %q", gr.SourceVersion, wantSourceVersion))
+		return
+	}
+	if wantDate != nil && !gr.Date.Equal(*wantDate) {
+		fail("record-differs", fmt.Sprintf("reader's Date is %v after the file was read, the last ##date line says %v", gr.Date, *wantDate))
+		return
 	}
 	if header && gr.Version != gff.Version {
 		fail("record-differs", "header written but reader's Version not set")
